@@ -141,6 +141,7 @@ def tokenOf : Obs → Option String
   | .acceptNone => some "conn.A=none"
   | .acceptErr => some "conn.A=err:local:H3_ID_ERROR"
   | .shutdownOk => some "conn.S=ok"
+  | .shutdownErr => some "conn.S=err:local:H3_ID_ERROR"
   | .idError => some "drv.W=err:local:H3_ID_ERROR"
   | .opened i => some s!"snd.R=req:{i}"
   | .remoteClosing => some "snd.R=err:rclosing"
